@@ -63,10 +63,44 @@ namespace plan
           cnt.inc("p1.formula_atom_missing");
           continue;
         }
+        if (st.item->pred >= 0 && !m.preds[st.item->pred].oparam.empty() && sigma(*a) == smt::True)
+        { // C17: the object parameter of an active atom denotes one instance of the parameter's class (or of a subclass) ...
+          Locals la;
+          ratio::item *pv = obj(a, la, {m.preds[st.item->pred].oparam});
+          cnt.inc("p6.object_parameters");
+          if (!pv)
+            viol("P6", "P6.object_parameter_not_single", "`" + st.text + "`: the object parameter " + m.preds[st.item->pred].oparam + " of the active atom is not assigned to exactly one instance");
+          else
+          {
+            bool ok = false;
+            std::vector<const ratio::type *> q{&pv->get_type()};
+            while (!q.empty())
+            {
+              const ratio::type *ty = q.back();
+              q.pop_back();
+              if (ty->get_name() == m.classes[m.preds[st.item->pred].oparam_cls].name)
+                ok = true;
+              for (auto *sup : ty->get_supertypes())
+                q.push_back(sup);
+            }
+            if (!ok)
+              viol("P6", "P6.object_parameter_domain", "`" + st.text + "`: the object parameter " + m.preds[st.item->pred].oparam + " takes an instance of " + pv->get_type().get_name() + ", which is not a " + m.classes[m.preds[st.item->pred].oparam_cls].name);
+            // ... and, when an argument was given, the very object the argument denotes
+            for (auto &arg : st.item->args)
+              if (arg.is_obj)
+              {
+                ratio::item *av = obj(top, none, arg.oval);
+                if (av && av != pv)
+                  viol("P1", "P1.formula_argument", "`" + st.text + "`: the object parameter " + arg.param + " is not the object its argument " + ptext(arg.oval) + " denotes");
+              }
+          }
+        }
         for (auto &arg : st.item->args)
         {
           Val pv, av;
           Locals la;
+          if (arg.is_obj)
+            continue;
           if (!num(a, la, {arg.param}, pv) || !lin(top, none, arg.val, av))
           {
             cnt.inc("p1.unevaluable");
@@ -84,9 +118,13 @@ namespace plan
         continue;
       std::vector<std::string> rf;
       m.all_rfields(in.cls, rf);
+      std::vector<std::pair<int, size_t>> owners;
+      m.all_rfield_owners(in.cls, owners);
       for (size_t i = 0; i < rf.size(); ++i)
       {
         Val v;
+        if (i < owners.size() && m.classes[owners[i].first].rmode(owners[i].second) == 3)
+          continue; // a free field: any value
         if (!num(top, none, {in.name, rf[i]}, v))
         {
           viol("P6", "P6.field_missing", "field " + in.name + "." + rf[i] + " cannot be read back");
@@ -393,12 +431,25 @@ namespace plan
           inst_of[it] = static_cast<int>(i);
     for (auto &v : m.ovars)
     {
-      if (v.unit >= units_read || m.mentioned.count(v.name))
+      // not mentioned at all, or mentioned exactly once: as the object argument of a goal/fact whose parameter has class pc (then
+      // only the values that are instances of pc remain - of pc AND ITS SUBCLASSES)
+      int only_pc = -1;
+      if (m.mentioned.count(v.name))
+      {
+        auto cnt_it = m.mention_count.find(v.name);
+        auto use = m.oarg_use.find(v.name);
+        if (cnt_it == m.mention_count.end() || cnt_it->second != 1 || use == m.oarg_use.end() || use->second.second >= units_read)
+          continue;
+        only_pc = use->second.first;
+      }
+      if (v.unit >= units_read)
         continue;
       std::set<int> expect, got;
       for (size_t i = 0; i < m.insts.size(); ++i)
-        if (m.is_subclass(m.insts[i].cls, v.cls) && m.insts[i].order < v.order)
+        if (m.is_subclass(m.insts[i].cls, v.cls) && m.insts[i].order < v.order && (only_pc < 0 || m.is_subclass(m.insts[i].cls, only_pc)))
           expect.insert(static_cast<int>(i));
+      if (only_pc >= 0)
+        cnt.inc("p6.domains_restricted_by_parameter");
       ratio::item *it = resolve(top, none, {v.name});
       if (!it)
         continue;
@@ -430,7 +481,7 @@ namespace plan
           a += " " + m.insts[i].name;
         for (int i : got)
           b += " " + m.insts[i].name;
-        viol("P6", "P6.domain_not_exact", "object variable " + v.name + " (" + m.classes[v.cls].name + ") ranges over {" + b + (unknown ? " <not an instance>" : "") + " } but the instances existing at its declaration are {" + a + " }");
+        viol("P6", "P6.domain_not_exact", "object variable " + v.name + " (" + m.classes[v.cls].name + ") ranges over {" + b + (unknown ? " <not an instance>" : "") + " } but the instances existing at its declaration" + (only_pc >= 0 ? " that are instances of " + m.classes[only_pc].name + " (the parameter it is given to)" : std::string()) + " are {" + a + " }");
       }
     }
     for (auto &v : m.evars)
